@@ -233,6 +233,23 @@ def _rest_body(rep, M, CM, file):
                 strat_field = a
     rep.require(strat_field is not None, "cannot bind the back-off strategy field of ConnectionManager")
     SF = ("f0", SELF, strat_field)
+    # the failure count is per manager: the strategy object is created for this manager (or handed in by the caller), never a default-argument instance that all
+    # managers built without the argument share
+    init_cm = CM.methods.get("__init__")
+    if init_cm is not None:
+        a_ = init_cm.node.args
+        pos_ = a_.posonlyargs + a_.args
+        dflt = dict(zip([x.arg for x in pos_][len(pos_) - len(a_.defaults):], a_.defaults))
+        dflt.update({k_.arg: d_ for k_, d_ in zip(a_.kwonlyargs, a_.kw_defaults) if d_ is not None})
+        try:
+            for p_ in Engine(M).run(init_cm):
+                v_ = strip_epoch(p_.store.get(("f", SELF, strat_field), ("c", None)))
+                if v_[0] == "p" and isinstance(dflt.get(v_[1]), ast.Call):
+                    rep.violation("R1", f"{MOD}.ConnectionManager.__init__", "shared-strategy", f"the back-off strategy defaults to one object created when the class is defined (`{v_[1]}={ast.unparse(dflt[v_[1]])[:40]}`): "
+                                  "managers share their failure count, so a new manager starts with the delay another one has built up", file, init_cm.node.lineno)
+                    break
+        except Exception:  # Unsupported: not decided here
+            pass
     ps = Engine(M, keep_props={"current_delay_sec"}, inline_async=True).run(tc)
     n_conn = 0
     bad2 = bad3 = 0
